@@ -689,6 +689,13 @@ func (f *Frame) unop(in *ssa.UnOp) {
 	x := f.val(in.X)
 	switch in.Op {
 	case token.MUL:
+		if gl, ok := in.X.(*ssa.Global); ok {
+			if cv, ok := g.constGlobalVal(gl); ok {
+				cv.GT = in.Type()
+				f.define(in, cv)
+				return
+			}
+		}
 		f.safetyOblig("nil-deref", in, not(eq(x.S, "nilptr")))
 		v := f.load(x, in.Type())
 		v = f.define(in, v)
